@@ -62,7 +62,7 @@ func w6bGen(c *simrt.Choice, prop, tier string) any {
 		ch.Latest = c.Intn(2) == 1
 		sc.Chans = append(sc.Chans, ch)
 	}
-	sc.FlushYield = c.Intn(3) == 0
+	sc.FlushYield = c.Intn(3) != 2
 	nt := 1 + c.Pick(3, 4, 3)
 	maxOps := 10
 	if tier == "thorough" {
@@ -217,6 +217,11 @@ func w6bRun(s *simrt.Sim, script any, prop string) {
 	}
 
 	flushFn := func(batch []queue.Item) error {
+		if sc.FlushYield {
+			// the real flush target (client.writeQueueItems -> writer.enqueueMany) starts
+			// with a lock acquisition: a scheduling point before the batch is accepted
+			s.Pause()
+		}
 		f := &w6bFlush{ch: -1, begin: next(), at: s.Now()}
 		for _, it := range batch {
 			if len(it.Data) != 8 {
